@@ -102,8 +102,8 @@ type faultWriter struct {
 	armed  bool
 	passN  int
 	err    error
-	calls  int  // Write calls since arm()
-	failed int  // Write calls refused
+	calls  int // Write calls since arm()
+	failed int // Write calls refused
 	onFail func(call int)
 }
 
